@@ -121,6 +121,33 @@ CHECKS = {
              "result and receiver-afterwards, both runtimes must reproduce them.",
         note="Type-only (no value oracle) for compare_lev, parse_float, to_json_indent, to_lower/upper, replace, join.",
         design="5/C18"),
+    "C15": dict(
+        technique="TLA+ spec of modules, imports and name resolution (HmsLink) model-checked with TLC over the "
+                  "exhaustively enumerated 3-module graph space and all module visiting orders; every graph rendered "
+                  "as real modules and analysed / run on both backends",
+        text="HmsLink enumerates 165888 graphs of three modules (contested function f private / pub / absent per module, "
+             "same-named globals x / hist and helper h in every module, a type T, every import list incl. private and "
+             "missing items, a missing module, cycles through and beside main) and lets the modules be initialised in "
+             "every order; TLC checks OnlyPubImportable, InitExactlyOnceBeforeMain, OrderIndependent, "
+             "ResolvesToDefiningModule in every state and exports per import item the specified verdict and per accepted "
+             "graph the specified output. The rendered modules (import statements in 2-3 orders) must be diagnosed "
+             "exactly there and produce exactly that output on VM and interpreter.",
+        note="Imports whose name clashes with a local definition or another import are left unspecified (skipped). A "
+             "cycle is demanded to be reported, not attributed to a particular statement.",
+        design="5/C15"),
+    "C14": dict(
+        technique="deterministic TLA+ specifications as the single allowed result (HmsLink: OrderIndependent over all "
+                  "module visiting orders, model-checked; HmsSem: one behaviour per program) against R repetitions of "
+                  "analyse+compile+run per backend under varied GOMAXPROCS / seeded yields / process histories",
+        text="Every module graph of a slice of HmsLink and every program of the order family (objects with 2..12 "
+             "fields, 40 shadowed locals, 14 functions / globals in shuffled definition order) and of the template / "
+             "lambda / singleton / random families is analysed, compiled and run 4 (thorough: 8) times per backend; each "
+             "repetition must produce the output and outcome the specification fixes, and the diagnostics multiset of "
+             "sources with several errors and warnings (token-level mutants, many unused names) must be identical in "
+             "every repetition.",
+        note="Repetitions sample Go's map orders (each fresh map draws a new order), they do not enumerate them; "
+             "12-field objects make an accidental match of all repetitions negligible (1/12! per print).",
+        design="5/C14"),
     "C09": dict(
         technique="TLA+ bytecode-machine spec (HmsVM: one rule per opcode, LimitOvershoot / LoopNeutral / "
                   "ReturnBalanced / NoUnderflow / HandlersLive) validated against recorded instruction traces "
